@@ -78,6 +78,17 @@ func (g *gen) oneBody(in reqIn) {
 	if in.Rerun != "" && !strings.HasPrefix(s.Err, "harness:") {
 		// the exchange is sent twice (retry after a 503 / digest re-send after a 401): both attempts must
 		// carry what the caller supplied; each is judged and emitted like a single exchange
+		unrewindable := false
+		for _, f := range in.Files {
+			unrewindable = unrewindable || f.Kind == "reader"
+		}
+		if unrewindable && s.Err != "" {
+			// a file given as a plain io.Reader cannot be uploaded a second time: the library refuses the
+			// second attempt with an error instead of sending an empty file - the right answer
+			r.Count("rerun:" + in.Rerun + ":unrewindable-reader-refused")
+			r.Add(hk.Case{Desc: map[string]interface{}{"kind": in.Kind, "in": in}}, in.key(), true)
+			return
+		}
 		if s.First == nil || s.Arrived == nil {
 			r.Fail(hk.Failure{Sig: "rerun:" + in.Rerun + ":not-resent:" + in.Kind, What: "the request was not sent twice: " + s.Err, Input: in})
 			return
